@@ -125,7 +125,9 @@ POLROWS = [[1.0, 0.0, 0.0], [0.0, 1.0, 0.0], [0.6, 0.8, 0.0]]
 SHAPES = {"5x4x2": ([5, 4, 2], ["red", "green"]),
           "4x5": ([4, 5], None), "1x1": ([1, 1], None),
           "2x3": ([2, 3], None), "1x7": ([1, 7], None),
-          "3x3x3": ([3, 3, 3], ["red", "green", "blue"])}
+          "3x3x3": ([3, 3, 3], ["red", "green", "blue"]),
+          # an illumination axis with a single channel
+          "3x4x1": ([3, 4, 1], ["red"])}
 SPACINGS = {"iso": 0.1, "aniso": [0.1, 0.2],
             # 3*0.7/0.7 < 3 in floating point: the reference-image crop of
             # load_average has to round, not truncate
@@ -135,7 +137,7 @@ NAMES = {"img": "img", "none": None, "a b": "a b",
 KINDS = ["none", "scalar", "dict", "array"]
 
 H5_AXES = {
-    "shape": ["5x4x2", "4x5", "1x1", "2x3", "1x7", "3x3x3"],
+    "shape": ["5x4x2", "4x5", "1x1", "2x3", "1x7", "3x3x3", "3x4x1"],
     "dtype": ["float64", "float32", "int16", "uint8"],
     "spacing": ["iso", "aniso"],
     "name": ["img", "none", "a b", "unicode"],
